@@ -100,7 +100,7 @@ CHECKS.update({
 CHECKS.update({
     "C09": dict(
         technique="Lean 4 proof on a heap model of the gene containers (Model/Heap.lean: gene-list objects and genotype dictionaries; GE / stack / SGE / dynamic-SGE create, mutate, crossover and the dynamic-SGE mapping written as the allocations, copies and in-place writes the code performs): for every operation sequence no sharing ever arises, every genotype object not handed to the dynamic-SGE mapping reads the same afterwards, a mapped one is only extended -- tied to the code by comparing the model's object graph with the real one (id() of every gene list, every genotype ever made) after EVERY operation of long histories; plus the frame property of label memoisation over cached trees; plus deep before/after snapshots of every live individual around every operator, step and GP generation on the implementation",
-        text="Theorems (Props/C09.lean, 12): on the heap model, for ALL operation sequences over all genotype objects ever made: C09_heap_no_sharing_ever (no gene-list object belongs to two genotypes or two keys), C09_heap_inputs_unchanged (same keys, same genes after any sequence, unless the genotype itself is handed to the dynamic-SGE mapping), C09_heap_mapping_only_extends (then every gene list is a prefix of what it becomes), C09_heap_operators_only_allocate, C09_heap_flat_mutate_refines / _crossover_refines (the object-level operators compute the genes of the value-level operators of Model/Linear.lean and leave the parents' objects as they were); relabelling a fully labelled (parental) subtree returns it unchanged, cache for cache, and never changes structure; dynamic SGE mapping only appends genes; GE/SGE mapping leaves the genotype as it was. Level A: the object graph after every operation of create / mutate / crossover / map histories on all four linear representations must be the model's. The rest of the property (tree-node sharing, cached phenotype / fitness, step combinators, arbitrarily long generation sequences) is decided on the implementation: structure, every node's metadata and synthesis context, the id()-sharing graph, genes and caches of every live individual are snapshotted before and re-validated after every call and after whole GP runs.",
+        text="Theorems (Props/C09.lean, 15): on the heap model, for ALL operation sequences over all genotype objects ever made: C09_heap_no_sharing_ever (no gene-list object belongs to two genotypes or two keys), C09_heap_inputs_unchanged (same keys, same genes after any sequence, unless the genotype itself is handed to the dynamic-SGE mapping), C09_heap_mapping_only_extends (then every gene list is a prefix of what it becomes), C09_heap_operators_only_allocate, C09_heap_flat_mutate_refines / _crossover_refines, C09_heap_struct_mutate_refines / _crossover_refines, C09_heap_dsge_map_refines (every object-level operator computes the genes of its value-level counterpart in Model/Linear.lean -- one gene of one list replaced, per-key choice between the parents with [] for a missing key, appended genes and new keys at the end -- and leaves every other genotype object as it was); relabelling a fully labelled (parental) subtree returns it unchanged, cache for cache, and never changes structure; dynamic SGE mapping only appends genes; GE/SGE mapping leaves the genotype as it was. Level A: the object graph after every operation of create / mutate / crossover / map histories on all four linear representations must be the model's. The rest of the property (tree-node sharing, cached phenotype / fitness, step combinators, arbitrarily long generation sequences) is decided on the implementation: structure, every node's metadata and synthesis context, the id()-sharing graph, genes and caches of every live individual are snapshotted before and re-validated after every call and after whole GP runs.",
         note="PARTIAL: the heap model covers the gene containers of the four genotype-based representations; tree nodes, Individual caches and populations are not in it (there the functional Lean models have immutable values, and non-modification is decided by snapshots on the implementation). A rewrite that shares gene lists where nothing writes in place (GE / stack / SGE) differs from the model without a failing input: reported with no-failing-input-found. Trusted: Lean kernel + standard axioms; harness snapshot code; the decisions (indices, values, masks, appended genes) are read off the real run.",
         design="5/C09",
     ),
